@@ -1,5 +1,5 @@
 (* Properties/C16.v — !append / !extend / !prev move and grow existing content without loss. *)
-From AY Require Import Model.Merge Proofs.Ops Proofs.NodeInd Spec.Update Proofs.MergePlain Proofs.MergeNotNew Proofs.MergeGen Proofs.AppendE2E Proofs.PrevE2E.
+From AY Require Import Model.Merge Proofs.Ops Proofs.NodeInd Spec.Update Proofs.MergePlain Proofs.MergeNotNew Proofs.MergeGen Proofs.AppendE2E Proofs.PrevE2E Proofs.ExtendE2E.
 
 (* p: !append L — for every older tree and every target reached by any path: the operator hands over the previous list
    (the very node found at p) followed by the elements of L, in order, content unchanged, and detaches it from the older tree *)
@@ -109,6 +109,30 @@ Example C16_prev_end_to_end_example :
   option_map erase (match merge2 [(9, [KS 1; KS 6])] base (Comp CDict F0 SNone [(KS 4, Leaf LPrev F0 (SStr 9))]) with Ok n => Some n | _ => None end) =
     Some (PD [(KS 1, PD [(KS 7, PS (SInt 8))]); (KS 3, PS (SInt 7)); (KS 4, erase sub)]).
 Proof. vm_compute. repeat split; try reflexivity. eexists. reflexivity. Qed.
+
+(* !extend, end to end: with a list at the path it is !append ... *)
+Theorem C16_extend_end_to_end : forall e ws fa xa chs root root' tf tx tch,
+  ws <> [] -> Forall WF ws -> Old root -> puk (erase root) -> dpath root (wkeys ws) ->
+  remove_node root (wkeys ws) = Some (Some (root', Comp CList tf tx tch)) ->
+  Forall (fun kc => Old (snd kc)) chs -> Forall (fun kc => puk (erase (snd kc))) chs ->
+  exists n, merge2 e root (wrap ws (Comp CExtend fa xa chs)) = Ok n /\
+            Some (erase n) = app_at (erase root) (wkeys ws) (map (fun kc => erase (snd kc)) chs).
+Proof. exact extend_end_to_end. Qed.
+Print Assumptions C16_extend_end_to_end.
+
+(* ... and with nothing (or something that is not a list) at the path the whole merge is exactly the merge of the PLAIN list:
+   the reference update of the config with the document in which `!extend L` is replaced by `L` (same content, or a MergeError
+   exactly when that update fails) *)
+Theorem C16_extend_fallback_end_to_end : forall e ws fa xa chs root,
+  ws <> [] -> Forall WF ws -> Old root -> puk (erase root) ->
+  (get_node root (wkeys ws) = None \/ exists t, get_node root (wkeys ws) = Some t /\ (match t with Comp k _ _ _ => is_listk k = false | Leaf _ _ _ => True end)) ->
+  Forall (fun kc => Old (snd kc)) chs -> Forall (fun kc => puk (erase (snd kc))) chs ->
+  match upd (erase root) (pwrap (wkeys ws) (PL (map (fun kc => erase (snd kc)) chs))) with
+  | Ok r => exists n, merge2 e root (wrap ws (Comp CExtend fa xa chs)) = Ok n /\ erase n = r
+  | Err _ _ => exists q, merge2 e root (wrap ws (Comp CExtend fa xa chs)) = Err EMerge q
+  end.
+Proof. exact extend_fallback_end_to_end. Qed.
+Print Assumptions C16_extend_fallback_end_to_end.
 
 Example C16_example :
   let L v := Leaf LScalar F0 (SInt v) in
